@@ -129,8 +129,18 @@ struct verif_cfgwide
   static constexpr uint32_t cb_slots = 4;
 };
 
+// verif32 with the grant / deny primitives (copy_memory_or_grant_access / copy_memory_or_deny_access ask the back end first)
+struct verif_cfg32g : verif_cfg32
+{
+  static constexpr bool can_grant = true;
+};
+struct verif_grant_yes { using can_grant_deny_access = void; };
+struct verif_grant_no {};
+template<typename Cfg, typename = void> struct verif_grant_base { using type = verif_grant_no; };
+template<typename Cfg> struct verif_grant_base<Cfg, std::enable_if_t<Cfg::can_grant>> { using type = verif_grant_yes; };
+
 template<typename Cfg>
-class rlbox_verif_sandbox
+class rlbox_verif_sandbox : public verif_grant_base<Cfg>::type
 {
 public:
   using T_LongLongType = typename Cfg::llong_t;
@@ -288,6 +298,30 @@ protected:
   }
 
   inline void impl_free_in_sandbox(T_PointerType p) { freed.push_back(p); }
+
+public:
+  // grant / deny (only reachable when Cfg::can_grant): what a real back end does by remapping pages is injected here -
+  // whether it succeeds and which address it answers with; the calls are counted with the range they were given
+  bool grant_succeeds = false;
+  uintptr_t grant_answer = 0;
+  int grant_calls = 0, deny_calls = 0;
+  uintptr_t last_transfer_start = 0;
+  size_t last_transfer_num = 0;
+protected:
+  template<typename T>
+  inline T* impl_grant_access(T* src, size_t num, bool& success)
+  {
+    grant_calls++; last_transfer_start = reinterpret_cast<uintptr_t>(src); last_transfer_num = num;
+    success = grant_succeeds;
+    return reinterpret_cast<T*>(grant_answer);
+  }
+  template<typename T>
+  inline T* impl_deny_access(T* src, size_t num, bool& success)
+  {
+    deny_calls++; last_transfer_start = reinterpret_cast<uintptr_t>(src); last_transfer_num = num;
+    success = grant_succeeds;
+    return reinterpret_cast<T*>(grant_answer);
+  }
 
   static inline bool impl_is_in_same_sandbox(const void* p1, const void* p2)
   {
